@@ -128,8 +128,12 @@ func validateFeature(w b6.World, f b6.Feature) string {
 				a, b := s2.LatLngFromPoint(ring[i]), s2.LatLngFromPoint(ring[(i+1)%len(ring)])
 				area += a.Lng.Degrees()*b.Lat.Degrees() - b.Lng.Degrees()*a.Lat.Degrees()
 			}
-			if area <= 0 || math.IsNaN(area) {
-				return fmt.Sprintf("%s: closed path is not counter-clockwise (signed area %g)", id, area)
+			// Clearly clockwise only: a ring whose moved corner makes it
+			// (numerically) degenerate has signed area ~0 (+-1e-15), which
+			// is a self-touching ring - like self-intersection, something
+			// neither the repository's validation nor this check judges.
+			if area < -1e-10 || math.IsNaN(area) {
+				return fmt.Sprintf("%s: closed path is clockwise (signed area %g)", id, area)
 			}
 		}
 	case b6.FeatureTypeArea:
